@@ -8,7 +8,8 @@ component models of the sibling properties are in Props/C13Components.lean.
 
 `lexFile bytes` is total by construction (structural recursion or fuel); the theorems say that the
 fuel is never exhausted, that no outcome leaves the text of a NUL-free file, and that every
-diagnostic carries a line of that file.
+diagnostic carries a line of that file.  The model follows the tokenizer as repaired in /repo (fixes
+ee6fc96, 5bc1be4); Findings/C13.lean records what the same theorems showed before the repair.
 -/
 import ChibiVerif.Lemmas.LexTotalLemmas
 
@@ -39,19 +40,13 @@ theorem C13_lex_total (bytes : List Nat) :
     | diag l m =>
       have := loop_diag_bound t _ _ _ _ _ _ _ hs
       simp only; omega
-    | overread w =>
-      simp only
-      apply Classical.byContradiction
-      intro h0
-      obtain ⟨t', ht', he⟩ := phases_ends bytes h0
-      rw [hp] at ht'; cases ht'
-      exact loop_inside t _ _ _ _ _ w (Or.inr he) hs
+    | overread w => exact absurd hs (loop_no_overread t _ _ _ _ _ w)
     | fuel => exact loop_no_fuel t _ _ _ _ _ (Nat.lt_succ_self _) hs
 
 /-- non-vacuity: one instance of each outcome (kernel-evaluated) -/
 example : lexFile [105, 110, 116, 32, 120, 59] = .ok 3 := by decide                       -- `int x;`
 example : lexFile [105, 59, 10, 34, 97] = .diag 2 .unclosedString := by decide             -- `i;` newline `"a`
-example : lexFile [47, 47, 0, 10, 120] = .overread .lineComment := by decide               -- `//` NUL newline `x`
+example : lexFile [97, 92, 0, 120] = .overread .universalBackslash := by decide             -- `a\` NUL `x`
 
 /-- **No hang (C13_no_hang, scanner part).**  `length + 1` iterations always suffice: every iteration of `while (*p)`
     consumes at least one byte.  (The passes before it are structurally recursive except convert_universal_chars, whose
@@ -76,11 +71,21 @@ theorem C13_lex_located (bytes : List Nat) (l : Nat) (m : Msg) (h : lexFile byte
 
 example : lexFile [10, 10, 39] = .diag 4 .unclosedChar ∧ lastLine [10, 10, 39] = 4 := by decide
 
+/-- **The line exists in the input.**  For a file without NUL bytes every diagnostic line lies between 1 and the number of
+    line terminators of the file (CR LF, lone CR, LF; read_file's completing newline counted) plus one — the line of the
+    EOF position, where "unclosed char literal" can be reported. -/
+theorem C13_lex_line_in_file (bytes : List Nat) (h0 : 0 ∉ bytes) (l : Nat) (m : Msg) (h : lexFile bytes = .diag l m) :
+    1 ≤ l ∧ l ≤ terminators (readFile bytes) + 1 := by
+  have := C13_lex_located bytes l m h
+  rw [lastLine_eq bytes h0] at this; exact this
+
+example : lexFile [97, 13, 10, 98, 92, 10, 99, 13, 39] = .diag 5 .unclosedChar ∧
+    terminators (readFile [97, 13, 10, 98, 92, 10, 99, 13, 39]) = 4 := by decide
+
 /-- **Temporary buffers.**  `tokenize()` is also run on buffers the preprocessor builds (`paste`, `stringize`,
-    `new_num_token`, `define_macro`).  On ANY text that ends in a newline the scanner stays inside the text, never exhausts
-    its bound, and a diagnostic line lies between 1 and the number of newlines + 1.  (Buffers that do not end in a newline
-    are where it does leave the text: Findings/C13.lean.) -/
-theorem C13_scan_total (text : List Nat) (h : EndsLF text) :
+    `new_num_token`, `define_macro`), which need not end in a newline.  On ANY text the scanner never exhausts its bound,
+    never leaves the text, and a diagnostic line lies between 1 and the number of newlines + 1. -/
+theorem C13_scan_total (text : List Nat) :
     match scan text with
     | .ok _ => True
     | .diag l _ => 1 ≤ l ∧ l ≤ countLF text + 1
@@ -91,10 +96,10 @@ theorem C13_scan_total (text : List Nat) (h : EndsLF text) :
   | diag l m =>
     have := loop_diag_bound text _ _ _ _ _ _ _ hs
     simp only; omega
-  | overread w => exact loop_inside text _ _ _ _ _ w (Or.inr h) hs
+  | overread w => exact absurd hs (loop_no_overread text _ _ _ _ _ w)
   | fuel => exact loop_no_fuel text _ _ _ _ _ (Nat.lt_succ_self _) hs
 
-example : EndsLF [49, 50, 10] ∧ scan [49, 50, 10] = .ok 1 := by decide                     -- new_num_token's "12\n"
+example : scan [47, 47] = .ok 0 ∧ scan [34, 92] = .diag 1 .unclosedString := by decide     -- paste of `/` `/`; `"\` at the end
 
 /-- **The passes keep the file's shape.**  For a file without NUL bytes the text handed to `tokenize()` exists (no step over
     the terminator in convert_universal_chars) and ends in a newline. -/
@@ -105,11 +110,12 @@ example : phases [92, 10, 97, 13] = .ok [97, 10, 10] := rfl                     
 
 /-- **Line numbers are those of the raw file** up to the last pass: for a file without NUL bytes the text after BOM removal,
     canonicalize_newline and remove_backslash_newline has exactly as many newlines as the file (as read_file completes it)
-    has line terminators (CR LF, lone CR, LF) — splices are re-inserted, so `error_at`'s count is the physical line.
-    convert_universal_chars is NOT covered: `\u000a` becomes a newline (Findings/C13.lean). -/
+    has line terminators (CR LF, lone CR, LF) — splices are re-inserted, so `error_at`'s count is the physical line —
+    and convert_universal_chars adds none (UTF-8 never encodes a code point other than 10 with a byte 10, and `\u000a` is
+    left alone since fix 5bc1be4). -/
 theorem C13_text_lines (bytes : List Nat) (h : 0 ∉ bytes) :
-    countLF (rmBsNl (canonNL (skipBOM (cstr (readFile bytes))))) = terminators (readFile bytes) :=
-  text_lines bytes h
+    lastLine bytes = terminators (readFile bytes) + 1 :=
+  lastLine_eq bytes h
 
 example : terminators (readFile [97, 13, 10, 98, 92, 10, 99, 13, 100]) = 4 := by decide   -- a CRLF b \LF c CR d (+LF)
 
